@@ -137,7 +137,13 @@ def session_step(O, S, ot, lca, los, onode, snode, leafmap):
             inp.costs[NodeEvent.HORIZONTAL_TRANSFER] = 1
             list(reconcile_thl(inp, A.POLICY["ALL"]))
             inp.costs[NodeEvent.HORIZONTAL_TRANSFER] = A.inf
-            res = [A.mapping_of(o, onode, snode) for o in reconcile_thl(inp, A.POLICY["ALL"])]
+            thl_set = reconcile_thl(inp, A.POLICY["ALL"])
+            # (only with uniquely named nodes: the hash of an output is computed from node names, so with nameless
+            # ancestors equal outputs may legitimately... hash apart; the statement does not speak about that case)
+            if all(n.name for n in ot.traverse()) and (out not in set(thl_set) or out not in list(thl_set)):
+                return ("thl_at_inf", "the LCA reconciliation is not a member (==, and through hashing) of the general solver's "
+                                      "result at hgt = inf")
+            res = [A.mapping_of(o, onode, snode) for o in thl_set]
             costs_thl = {A.impl_cost(o.cost()) for o in reconcile_thl(inp, A.POLICY["ALL"])}
         except Exception as exc:
             return ("exception", f"reconcile_thl raised {type(exc).__name__}: {exc}\n{traceback.format_exc(limit=5)}")
